@@ -164,7 +164,8 @@ func (m *MatchRemoteIP) getRemoteIP(cx *Connection) (netip.Addr, error) {
 	if err != nil {
 		return netip.Addr{}, fmt.Errorf("invalid remote IP address: %s", ipStr)
 	}
-	return ip, nil
+	// no range contains an address with a zone (fe80::1%eth0)
+	return ip.WithZone(""), nil
 }
 
 // UnmarshalCaddyfile sets up the MatchRemoteIP from Caddyfile tokens. Syntax:
@@ -250,7 +251,8 @@ func (m *MatchLocalIP) getLocalIP(cx *Connection) (netip.Addr, error) {
 	if err != nil {
 		return netip.Addr{}, fmt.Errorf("invalid local IP address: %s", ipStr)
 	}
-	return ip, nil
+	// no range contains an address with a zone (fe80::1%eth0)
+	return ip.WithZone(""), nil
 }
 
 // UnmarshalCaddyfile sets up the MatchLocalIP from Caddyfile tokens. Syntax:
